@@ -190,7 +190,7 @@ def gen_cases(draw, n=20):
 
 CLAUSES = [
     Clause('hand-built-graphs', check_case, kind='random', strategy=lambda: ag_cases(20),
-           budget={'quick': 6000, 'thorough': 50000}),
+           budget={'quick': 6000, 'thorough': 150000}),
     Clause('generated-graphs', check_case, kind='random', strategy=lambda: gen_cases(20),
-           budget={'quick': 3000, 'thorough': 25000}),
+           budget={'quick': 3000, 'thorough': 75000}),
 ]
